@@ -4,6 +4,7 @@ import (
 	"fmt"
 	"strings"
 	"sync"
+	"time"
 
 	fpgo "github.com/TeaEntityLab/fpGo/v2"
 	"github.com/TeaEntityLab/fpGo/v2/zzverif/vsched"
@@ -336,6 +337,75 @@ func wrappedBufferedScenario(bound int) *vsched.Scenario {
 	}
 }
 
+// afterIdleScenario: a ConcurrentQueue over a LinkedListQueue that has been through a backlog of `backlog` values (so it
+// holds that many spare nodes), is left alone for `idle` of (virtual) time, and is then used by a remover and an adder
+// at once: the remover gets the head, the adder's values go to the tail, nothing else moves (housekeeping that a wrapper
+// does "once in a while" must happen under its lock).
+func afterIdleScenario(backlog int, idle time.Duration, pool, bound int) *vsched.Scenario {
+	fam := "concurrentqueue-after-idle"
+	keep := 4
+	return &vsched.Scenario{
+		Name:     fmt.Sprintf("linkedlist/backlog%d/idle-%v/poll-vs-offer-offer/sync.Pool-policy%d", backlog, idle, pool),
+		Bound:    bound,
+		MaxSteps: 2000000,
+		IdleGap:  int64(3 * time.Hour),
+		Body: func() {
+			vsched.PoolRetain = pool
+			cq := fpgo.NewConcurrentQueue[int](fpgo.NewLinkedListQueue[int]())
+			for v := 1; v <= backlog+keep; v++ {
+				cq.Offer(v)
+			}
+			for v := 1; v <= backlog; v++ {
+				if got, err := cq.Poll(); err != nil || got != v {
+					vsched.Event("setup-wrong", v, got)
+				}
+			}
+			time.Sleep(idle)
+			var wg sync.WaitGroup
+			wg.Add(2)
+			vsched.GoNamed("remover", func() {
+				got, err := cq.Poll()
+				vsched.Event("removed", got, err == nil)
+				got, err = cq.Take()
+				vsched.Event("removed2", got, err == nil)
+				wg.Done()
+			})
+			vsched.GoNamed("adder", func() {
+				vsched.Event("added", cq.Offer(1001) == nil, cq.Offer(1002) == nil, cq.Put(1003) == nil)
+				wg.Done()
+			})
+			wg.Wait()
+			var rest []int
+			for {
+				v, err := cq.Poll()
+				if err != nil {
+					break
+				}
+				rest = append(rest, v)
+				if len(rest) > 50 {
+					break
+				}
+			}
+			vsched.Event("rest", fmt.Sprint(rest))
+		},
+		Check: func(r *vsched.Result) []vsched.Failure {
+			fs := e1.Basic("C08", fam, r, nil)
+			if len(fs) > 0 {
+				return fs
+			}
+			var want []int
+			for v := backlog + 3; v <= backlog+keep; v++ {
+				want = append(want, v)
+			}
+			want = append(want, 1001, 1002, 1003)
+			if e1.Count(r, "setup-wrong") > 0 || e1.Count(r, "removed", backlog+1, true) != 1 || e1.Count(r, "removed2", backlog+2, true) != 1 || e1.Count(r, "added", true, true, true) != 1 || e1.Count(r, "rest", fmt.Sprint(want)) != 1 {
+				fs = append(fs, e1.Fail("C08|"+fam+"|wrong-result", "after a backlog of %d and %v of idleness, Poll+Take against Offer+Offer+Put on a queue holding %d..%d: want removed %d, %d and the rest %v; got %v", backlog, idle, backlog+1, backlog+keep, backlog+1, backlog+2, want, r.Events))
+			}
+			return fs
+		},
+	}
+}
+
 func preloadOrder(p []int) []int { return p }
 
 func scenarios(tier string) []*vsched.Scenario {
@@ -374,6 +444,9 @@ func scenarios(tier string) []*vsched.Scenario {
 		{[]int{7}, [][]stepSpec{{pp()}, {pp()}, {ps(1)}}},
 		{nil, [][]stepSpec{{pp()}, {pp()}}},
 		{nil, [][]stepSpec{{pp(), pp()}, {ps(1), ps(2)}}},
+	}
+	for _, idle := range []time.Duration{time.Millisecond, 3 * time.Second, 10 * time.Minute} {
+		out = append(out, afterIdleScenario(70, idle, 1, 1), afterIdleScenario(3, idle, 2, 2))
 	}
 	if tier == "thorough" {
 		queue = append(queue,
